@@ -338,8 +338,12 @@ def pack_union(
         return spec.expression
 
     with lines.indent():
+        # as a last resort the packers of the non-dataclass members that are
+        # classes are tried again on any value (duck typing)
+        fallback_packers: list[str] = []
         for packer in packers:
             packer_arg_type_names = []
+            packer_arg_classes = True
             for packer_arg_type in packer_arg_types[packer]:
                 while True:
                     if is_annotated(packer_arg_type):
@@ -350,6 +354,11 @@ def pack_union(
                         break
                 if is_generic(packer_arg_type):
                     packer_arg_type = get_type_origin(packer_arg_type)
+                if is_typed_dict(packer_arg_type):
+                    # TypedDict does not support instance checks
+                    packer_arg_type = dict
+                if not isinstance(packer_arg_type, type):
+                    packer_arg_classes = False
                 packer_arg_type_name = clean_id(type_name(packer_arg_type))
                 spec.builder.ensure_object_imported(
                     packer_arg_type, packer_arg_type_name
@@ -367,13 +376,15 @@ def pack_union(
                     f"if value.__class__ {packer_arg_type_check}:"
                 ):
                     lines.append(f"return {packer}")
-            elif all(
+                continue
+            is_dataclass_packer = all(
                 is_dataclass(get_type_origin(t))
                 for t in packer_arg_types[packer]
-            ):
-                # the packer of a dataclass member (a function bound to
-                # this class in codecs, a method call with the flags of this
-                # class in mixins) must only be applied to its instances
+            )
+            if packer_arg_classes:
+                # a member's packer is for the instances of this member:
+                # str() of a UUID member or the positional packing of
+                # a fixed tuple member "succeed" on values of other members
                 with lines.indent(
                     "if isinstance(value, "
                     f"({', '.join(packer_arg_type_names)},)):"
@@ -382,11 +393,22 @@ def pack_union(
                         lines.append(f"return {packer}")
                     with lines.indent("except Exception:"):
                         lines.append("pass")
+                # the packer of a dataclass member (a function bound to this
+                # class in codecs, a method call with the flags of this class
+                # in mixins) is never applied to anything but its instances
+                if not is_dataclass_packer:
+                    fallback_packers.append(packer)
             else:
+                # not a class (Literal, TypeVar, ...): nothing to test
                 with lines.indent("try:"):
                     lines.append(f"return {packer}")
                 with lines.indent("except Exception:"):
                     lines.append("pass")
+        for packer in fallback_packers:
+            with lines.indent("try:"):
+                lines.append(f"return {packer}")
+            with lines.indent("except Exception:"):
+                lines.append("pass")
         field_type = spec.builder.get_type_name_identifier(
             typ=spec.type,
             resolved_type_params=spec.builder.get_field_resolved_type_params(
